@@ -382,7 +382,8 @@ impl AstLowering {
         let fields = vec![StructField {
             name: "0".to_string(),
             ty: underlying_ty.clone(),
-            visibility: Visibility::Private,
+            // the payload of a `pub` newtype is reachable (`T(x)`, `.0`) wherever the type is
+            visibility: Self::map_visibility(n.visibility),
             default: None,
         }];
         // Newtypes auto-derive Debug, Clone
